@@ -58,7 +58,7 @@ def ingest(ctx):
 def uni(ctx):
     F = ctx.F
     R = ctx.rule("C16.uni", "K2+K9", "broadcast ingest: a decoded change is queued only when the handler's cluster id equals the payload's")
-    cands = [b for b in F.find(r"^klukai_agent::agent::uni::spawn_unipayload_handler::") if any(CHANGE_CHAN in c.self_ty and c.name() == "send" for c in b.calls)]
+    cands = [b for b in F.find(r"^klukai_agent::agent::uni::") if b.kind in ("coroutine", "closure") and any(CHANGE_CHAN in c.self_ty and c.name() == "send" for c in b.calls)]
     if not R.anchor(cands, "uni-task", "the uni-stream coroutine that sends into the change channel"):
         return
     b = cands[0]
@@ -178,8 +178,29 @@ def client(ctx):
     hs = [b for b in cm.coroutines_of(F, "klukai_agent::agent::handlers::handle_sync")]
     fam = [x for b in hs for x in F.family(b)]
     filt = [b for b in fam if b.kind == "closure" and cm.eq_compares(b, CLUSTER)]
-    if not R.anchor(filt, "filter", "candidate filter closure comparing cluster ids in handle_sync"):
-        return
+    if not filt:
+        # the candidate selection written as an explicit loop: `if member.cluster_id != agent.cluster_id() { continue }` before the push
+        loops = [b for b in fam if b.kind == "coroutine" and cm.eq_compares(b, CLUSTER)]
+        if not R.anchor(loops, "filter", "cluster-id comparison in handle_sync's candidate selection"):
+            return
+        lb = loops[0]
+        c = cm.eq_compares(lb, CLUSTER)[0]
+        pushes = [p for p in lb.calls if p.f.endswith("Vec::<T, A>::push") and lb.can_reach(c.bb, p.bb)]
+        if R.anchor(pushes, "candidate-push", "the push collecting a sync candidate"):
+            ok, d = cm.effect_only_when_equal(lb, c, cm.blocks_of_calls(pushes))
+            R.require(ok, "filter-rejects-different", c.where(), "a member is collected as sync candidate only on the cluster-equal edge %s" % d,
+                      fail_msg="a member of a different cluster can be collected as sync candidate (%s)" % d)
+            nx = [n for n in lb.calls if n.name() == "next" and lb.dominates(n.bb, c.bb)]
+            if R.anchor(nx, "members-loop", "iteration over members.states"):
+                tgt = lb.term(nx[-1].bb).get("tgt")
+                skip = [p for p in pushes if p.bb in lb.reachable(tgt, no_nodes=(c.bb, nx[-1].bb))]
+                R.require(not skip, "compare-per-member", c.where(), "every path from taking the next member to collecting it evaluates the cluster comparison",
+                          fail_msg="some path collects a member without evaluating the cluster comparison")
+        o0, o1 = cm.operand_origins(lb, c, 0), cm.operand_origins(lb, c, 1)
+        s_ = cm.origin_summary(o0) + cm.origin_summary(o1)
+        R.require(any("cluster_id" in x for x in s_) and (_is_agent_cluster(o0) or _is_agent_cluster(o1)), "filter-operands", c.where(), "compares member.cluster_id with agent.cluster_id() (%s)" % s_[:4],
+                  fail_msg="candidate selection does not compare member.cluster_id with agent.cluster_id(): %s" % s_)
+        return _client_rejection(ctx, R)
     fb = filt[0]
     c = cm.eq_compares(fb, CLUSTER)[0]
     eq_r, diff_r = cm.returns_when(fb, c)
@@ -201,6 +222,11 @@ def client(ctx):
                 used = True
     R.require(used, "filter-used", fb.where(), "the closure is the predicate of Iterator::filter on members.states",
               fail_msg="the cluster-comparing closure is no longer passed to Iterator::filter")
+    _client_rejection(ctx, R)
+
+
+def _client_rejection(ctx, R):
+    F = ctx.F
     # Rejection => error return in parallel_sync handshake
     ps = [b for b in F.find(r"^klukai_agent::api::peer::parallel_sync::") if b.kind == "coroutine"]
     hits = 0
@@ -251,7 +277,13 @@ def targets(ctx):
         c = cm.eq_compares(fb, CLUSTER)[0]
         # then_some(cond, addr): cond must be false when different
         ts = [x for x in fb.calls if re.search(r"bool>?::then(_some)?$", x.f)]
-        if R.anchor(ts, "ring0.then_some", "bool::then_some in ring0"):
+        if not ts and fb.ty(0) == "bool":
+            # `.filter(|v| ..cluster_id == v.cluster_id..).map(|v| v.addr)` form
+            is_eq = c.name() == "eq"
+            _, rets_diff = flow.eval_guard(fb, {c.bb: (not is_eq)})
+            R.require(rets_diff == {False}, "ring0-false-when-different", c.where(), "ring0's filter is false for a member of another cluster",
+                      fail_msg="ring0 can select a member of a different cluster (filter returns %s when ids differ)" % sorted(map(str, rets_diff)))
+        elif R.anchor(ts, "ring0.then_some", "bool::then_some in ring0"):
             # the bool receiver: evaluate under both outcomes
             t = ts[0]
             l = op_local(t.args[0])
